@@ -136,7 +136,8 @@ func monitorVal(rep *Report, r *ValRun) valMonResult {
 			Detail: map[string]interface{}{"state_after_step": r.Snaps[step].Ov().Coq()}})
 		internOff = false
 	}
-	dry := map[int64]bool{} // heights whose block was pre-executed on a discarded branch
+	dry := map[int64]bool{}       // heights whose block was pre-executed on a discarded branch
+	malformed := map[int64]bool{} // heights that (wrongly) hold a malformed plan
 	plans := map[uint64]planInfo{}
 	removed := map[uint64]bool{}
 	exp := map[int64][]KP{}
@@ -220,8 +221,9 @@ func monitorVal(rep *Report, r *ValRun) valMonResult {
 					viol(i, "C14:duplicate-height-registered", fmt.Sprintf("a second plan was registered for height %d", op.PH))
 				}
 				plans[op.PH] = planInfo{op.Op, op.Key, op.Execs}
-				if op.Pid == 0 || op.PH == 0 || op.Op == 0 || op.Key == 0 {
-					viol(i, "C14:malformed-plan-registered", "a malformed plan was registered")
+				if op.Pid == 0 || op.PH == 0 || op.Op == 0 || op.Key == 0 || op.BadExec {
+					malformed[int64(op.PH)] = true
+					viol(i, "C14:malformed-plan-registered", "a malformed plan was registered: "+op.String())
 				}
 			} else if fmt.Sprint(s.Plans) != fmt.Sprint(prev.Plans) {
 				viol(i, "C14:failed-registration-changed-table", "failed registration changed the plan table")
@@ -276,7 +278,7 @@ func monitorVal(rep *Report, r *ValRun) valMonResult {
 			if s.Verdict != "OK" {
 				if _, has := plans[uint64(op.H)]; has {
 					res.PlanRuns++
-					viol(i, planFailSig(dry[op.H]), "EndBlocker failed at the plan height: "+s.Err)
+					viol(i, planFailSig(dry[op.H], malformed[op.H]), "EndBlocker failed at the plan height: "+s.Err)
 				} else {
 					viol(i, "C13:end-block-failed", "EndBlocker failed: "+s.Err)
 				}
@@ -335,7 +337,7 @@ func monitorVal(rep *Report, r *ValRun) valMonResult {
 				}
 				if len(problems) > 0 {
 					for _, p := range problems {
-						viol(i, planFailSig(dry[op.H]), p)
+						viol(i, planFailSig(dry[op.H], malformed[op.H]), p)
 					}
 				} else if stepTaint == "" {
 					res.PlanGood++
@@ -359,7 +361,10 @@ func monitorVal(rep *Report, r *ValRun) valMonResult {
 // a plan that fails in the good situation; named after the discarded pre-execution of its block
 // when there was one (the plan table is node memory, not store state: a discarded run must not
 // consume the plan)
-func planFailSig(afterDry bool) string {
+func planFailSig(afterDry, malformed bool) string {
+	if malformed {
+		return "C14:malformed-plan-breaks-end-block"
+	}
 	if afterDry {
 		return "C14:plan-not-applied-after-discarded-execution"
 	}
